@@ -609,12 +609,16 @@ def design_fixedlist(run, invariants, maxdict, maxemoji):
 
 def c07(run):
     cands(run, "C07", "order")
+    shadow_trace(run, "C07", "order")
     design_candidates(run, ["NoDuplicates", "AcFirst", "DictNonDecreasing", "TranslitAfterDict", "EnglishLast", "NoEmojiBeforeExact", "NeverEmpty",
                             "CmpTransitiveHere"], 2 if run.quick() else 3, 2 if run.quick() else 3)
 
 
 def c08(run):
     cands(run, "C08", "justified")
+    # the lists of a USED context (slips corrected between base and suffix, words typed again, re-configurations) equal those of a brand-new one,
+    # for which the clauses are established above
+    shadow_trace(run, "C08", "justified")
 
 
 def c19(run):
